@@ -4,6 +4,7 @@ import (
 	"context"
 	"fmt"
 	"math"
+	"strings"
 
 	"github.com/jig/lisp/types"
 
@@ -298,6 +299,60 @@ func init() {
 			model.Vec(model.Nil, model.Nil), model.Vec(model.Int(1), model.Int(2), model.Int(3), model.Int(4), model.Int(5)),
 		}
 		nd := int64(len(derives))
+		// deeply nested values: equality is structural at every depth
+		deepDepths := []int{10, 999, 1000, 1001, 1500, 4000}
+		deepKinds := []string{"list", "vector", "map"}
+		mkDeep := func(kind string, depth int, leafV types.MalType) types.MalType {
+			var v types.MalType = leafV
+			for i := 0; i < depth; i++ {
+				switch kind {
+				case "list":
+					v = types.List{Val: []types.MalType{v}}
+				case "vector":
+					v = types.Vector{Val: []types.MalType{i, v}}
+				default:
+					v = types.HashMap{Val: map[string]types.MalType{"k": v}}
+				}
+			}
+			return v
+		}
+		deep := &vf.Family{
+			Name: "deeply-nested-values", InProc: true,
+			Bounds:   fmt.Sprintf("values nested %v levels deep (lists, vectors, maps): a value against itself, against a separately built copy, a list chain against the matching vector chain, and against a copy whose innermost element differs", deepDepths),
+			Setup:    func(t string) { tier = t; env = lx.NewFullEnv() },
+			N:        func(string) int64 { return int64(len(deepDepths) * len(deepKinds)) },
+			Describe: func(i int64) string { return fmt.Sprintf("%s nested %d deep", deepKinds[i%3], deepDepths[i/3]) },
+			Run: func(i int64, r *vf.Rec) {
+				kind, d := deepKinds[i%3], deepDepths[i/3]
+				r.NT()
+				a, b, c := mkDeep(kind, d, 1), mkDeep(kind, d, 1), mkDeep(kind, d, 2)
+				q := func(v types.MalType) types.MalType {
+					return types.List{Val: []types.MalType{types.Symbol{Val: "quote"}, v}}
+				}
+				check := func(what string, x, y types.MalType, want bool) {
+					got, why := eq(q(x), q(y), r)
+					if why != "" {
+						r.Violation("= fails on deeply nested values", fmt.Sprintf("%s nested %d deep, %s: %s", kind, d, what, oneLineC14(why)))
+						return
+					}
+					if got != want {
+						r.Violation("= disagrees with structural equality on deeply nested values", fmt.Sprintf("%s nested %d deep, %s: got %v, want %v", kind, d, what, got, want))
+					}
+				}
+				check("a value against itself", a, a, true)
+				check("a value against a separately built copy", a, b, true)
+				check("a value against a copy whose innermost element differs", a, c, false)
+				if kind == "list" {
+					// the same chain built of one-element vectors
+					var v types.MalType = 1
+					for k := 0; k < d; k++ {
+						v = types.Vector{Val: []types.MalType{v}}
+					}
+					check("a list chain against the matching vector chain", a, v, true)
+					check("the vector chain against the list chain", v, a, true)
+				}
+			},
+		}
 		derived := &vf.Family{
 			Name:   "derived-from-common-ancestor",
 			Bounds: fmt.Sprintf("%d base sequences (vectors as literals with spare capacity, lists; equal, repeated and nested elements) x all ordered pairs of %d derivations of the same base (subvec windows, take/drop, rest, seq, vec, with-meta, conj, concat)", len(bases), len(derives)),
@@ -337,7 +392,14 @@ func init() {
 			ID: "C14", Level: "model_checking",
 			Rule:        "every ordered pair of data values of the bounded space is compared by the real = (through EVAL, with b also rebuilt along a second construction path) and by the model's independent structural equality; reflexivity, symmetry and transitivity are additionally checked on the implementation's own answers; non-trivial = pair of same kind / both sequential / equal",
 			Assumptions: []string{"values above the weight bound; keys over {\"a\", :a, :b}"},
-			Families:    []*vf.Family{pairs, triples, derived},
+			Families:    []*vf.Family{pairs, triples, derived, deep},
 		}
 	})
+}
+
+func oneLineC14(s string) string {
+	if len(s) > 200 {
+		s = s[:200]
+	}
+	return strings.ReplaceAll(s, "\n", " ")
 }
